@@ -97,6 +97,41 @@ func underscorePkgDefines(po *protoOut, f protoFlags, typ string) bool {
 	return ok && strings.Contains(raw, "package "+f.PackageName+"._;") && strings.Contains(raw, "\nmessage "+typ+" {")
 }
 
+var singletonCache = map[string]map[string]bool{}
+
+// singletonEnumNames returns, from goyang's own compilation of the schema, the enum names
+// protogen derives for leaves whose type is a union with exactly one member, an enumeration.
+func singletonEnumNames(src schemaSrc) map[string]bool {
+	key := src.Dir + "|" + strings.Join(src.Roots, "|")
+	if m, ok := singletonCache[key]; ok {
+		return m
+	}
+	out := map[string]bool{}
+	singletonCache[key] = out
+	yi, err := loadYang(src.Dir, src.Roots)
+	if err != nil {
+		return out
+	}
+	seen := map[*yang.Entry]bool{}
+	var walk func(e *yang.Entry)
+	walk = func(e *yang.Entry) {
+		if seen[e] {
+			return
+		}
+		seen[e] = true
+		if e.Type != nil && e.Type.Kind == yang.Yunion && len(e.Type.Type) == 1 && e.Type.Type[0].Kind == yang.Yenum {
+			out[yang.CamelCase(e.Name)+"Enum"] = true
+		}
+		for _, c := range e.Dir {
+			walk(c)
+		}
+	}
+	for _, r := range yi.roots {
+		walk(r)
+	}
+	return out
+}
+
 func lastComponent(s string) string {
 	if i := strings.LastIndexByte(s, '.'); i >= 0 {
 		return s[i+1:]
@@ -106,7 +141,7 @@ func lastComponent(s string) string {
 
 // excused reports whether problem p of output po is an instance of an open known finding:
 // every case is (trigger region of the finding) AND (its failure signature).
-func excused(rec *ev.Rec, f protoFlags, po *protoOut, p problem) bool {
+func excused(rec *ev.Rec, src schemaSrc, f protoFlags, po *protoOut, p problem) bool {
 	rel, line := problemLine(po, p)
 	raw := po.Raw[rel]
 	q := quotedRE.FindAllStringSubmatch(p.Msg, -1) // quoted parts of the message, in order
@@ -119,7 +154,8 @@ func excused(rec *ev.Rec, f protoFlags, po *protoOut, p problem) bool {
 	enumRef := f.PackageName + "." + f.EnumPackage + "."
 	switch {
 	// F41: -add_schemapaths=false; the leaf-list annotation is used in a file without yext import
-	case p.Class == "link:unresolved" && strings.Contains(p.Msg, "option (yext.leaflist"):
+	// (also the yang_name annotation of an enum inside a nested list-key message)
+	case p.Class == "link:unresolved" && (strings.Contains(p.Msg, "option (yext.leaflist") || strings.Contains(p.Msg, "option (yext.yang_name)")):
 		return rec.Excuse(fYextImport, !f.SchemaPaths && rel != "" && !strings.Contains(raw, "/yext.proto\";"))
 
 	// F42: a type reference that starts with a protobuf keyword
@@ -143,7 +179,7 @@ func excused(rec *ev.Rec, f protoFlags, po *protoOut, p problem) bool {
 			return false // a real reference to a global enum: not one of the two spurious-import defects
 		}
 		for _, l := range strings.Split(raw, "\n") {
-			if m := singletonEnumRE.FindStringSubmatch(l); m != nil && strings.TrimRight(m[1], "_") == yang.CamelCase(m[2])+"Enum" {
+			if m := singletonEnumRE.FindStringSubmatch(l); m != nil && singletonEnumNames(src)[strings.TrimRight(m[1], "_")] {
 				return rec.Excuse(fSingletonEnum, true)
 			}
 		}
@@ -201,12 +237,13 @@ func excused(rec *ev.Rec, f protoFlags, po *protoOut, p problem) bool {
 			strings.HasSuffix(strings.TrimSuffix(scope, "."+typ+"Key"), yang.CamelCase(f.FakeRootName)):
 			return rec.Excuse(fRootList, true)
 		}
-		// F44: plain field of type <CamelCase(field)>Enum (union with a single enumeration member)
+		// F44: plain field of type <CamelCase(leaf)>Enum where, per goyang, <leaf> is a leaf whose
+		// type is a union with a single enumeration member (the field itself may be a leafref to it)
 		sm := singletonEnumRE.FindStringSubmatch(line)
 		if sm == nil || typ != sm[1] {
 			return false
 		}
-		return rec.Excuse(fSingletonEnum, strings.TrimRight(sm[1], "_") == strings.TrimRight(yang.CamelCase(sm[2])+"Enum", "_"))
+		return rec.Excuse(fSingletonEnum, singletonEnumNames(src)[strings.TrimRight(sm[1], "_")])
 	}
 	return false
 }
@@ -316,7 +353,7 @@ func c28Case(rec *ev.Rec, t testing.TB, root string, src schemaSrc, f protoFlags
 			fatal("HARNESS-BUG: the proto3-subset parser does not support a construct protogen emitted: %s\n%s%s", p.Msg, describe(po), dumpOutput(po, 6000))
 			return
 		}
-		if excused(rec, f, po, p) {
+		if excused(rec, src, f, po, p) {
 			excusedList = append(excusedList, p.Class)
 			continue
 		}
@@ -388,7 +425,7 @@ func c28Case(rec *ev.Rec, t testing.TB, root string, src schemaSrc, f protoFlags
 			mprobs, _ := checkWellFormed(pm, f)
 			mOK := true
 			for _, p := range mprobs {
-				if !excused(rec, f, pm, p) {
+				if !excused(rec, src, f, pm, p) {
 					mOK = false
 				}
 			}
